@@ -15,6 +15,7 @@ import NumqiProofs.MatrixSpaceLevel2
 import NumqiProofs.MatrixSpaceTripartite
 import NumqiProofs.MatrixSpaceOrth
 import NumqiProofs.MatrixSpaceGellmann
+import NumqiProofs.MatrixSpaceChain
 import NumqiModel.Generated.Thresholds20
 import Mathlib.Data.List.Sort
 import Mathlib.Data.Real.Basic
@@ -230,14 +231,31 @@ theorem rankOneCert_default_slack_pos :
     rankOneCertEpsNeg = false ∧ 0 < (rankOneCertEpsNum : ℚ) / rankOneCertEpsDen := by
   refine ⟨rfl, ?_⟩; norm_num [rankOneCertEpsNum, rankOneCertEpsDen]
 
-/-- **the Gram-matrix certificates are sound up to their slack**: a linearly dependent family has a singular positive
-semidefinite Gram matrix, the exact measured quantity (its smallest eigenvalue, `eigvalsh` contract) is 0, so a computed value
-within `δ ≤ zero_eps` of it does not certify. -/
-theorem hierarchyCert_sound (computed δ zero_eps : ℝ) (hround : |computed - 0| ≤ δ) (hslack : δ ≤ zero_eps) :
+/-- **the decision quantity of both Gram-matrix certificates is the smallest eigenvalue** (`np.linalg.eigvalsh(G)[0]`), as recorded by
+the translator from the source.  Fail-safe: any other routine left of `> zero_eps` — in particular the partial-pivot LU pivots of the
+repaired defect 561406a, which are not rank revealing — is translated to another `DecisionKind` and this obligation no longer
+elaborates; the concrete failing inputs are the regression corpus `corpus/C20/*.json`. -/
+theorem decisionIsRankRevealing :
+    hierarchyCertKind = DecisionKind.smallestEigenvalue ∧ abcCertKind = DecisionKind.smallestEigenvalue := by decide
+
+/-- **the Gram-matrix certificates are sound up to their slack.**  Contract (only available for the kind
+`smallestEigenvalue`): the computed decision quantity is within `δ` of the exact smallest eigenvalue `lamMin` of the Gram matrix;
+for a linearly dependent family `lamMin = 0` (`gram_lambda_min_zero`); if `δ ≤ zero_eps` — **hypothesis, not provable: adequacy of
+the absolute threshold against the rounding of `eigvalsh`** — the certificate is not issued. -/
+theorem hierarchyCert_sound (computed lamMin δ zero_eps : ℝ)
+    (_hkind : hierarchyCertKind = DecisionKind.smallestEigenvalue ∧ abcCertKind = DecisionKind.smallestEigenvalue)
+    (hsing : lamMin = 0) (hround : |computed - lamMin| ≤ δ) (hslack : δ ≤ zero_eps) :
     hierarchyCert computed zero_eps = false ∧ abcCert computed zero_eps = false := by
+  subst hsing
   have := abs_le.1 hround
   simp only [hierarchyCert, abcCert, decide_eq_false_iff_not, not_lt, gt_iff_lt]
   constructor <;> linarith [this.2]
+
+/-- the same with the kind obligation discharged for the source as it stands -/
+theorem hierarchyCert_sound_current (computed lamMin δ zero_eps : ℝ) (hsing : lamMin = 0)
+    (hround : |computed - lamMin| ≤ δ) (hslack : δ ≤ zero_eps) :
+    hierarchyCert computed zero_eps = false ∧ abcCert computed zero_eps = false :=
+  hierarchyCert_sound computed lamMin δ zero_eps decisionIsRankRevealing hsing hround hslack
 
 theorem hierarchyCert_default_slack_pos :
     hierarchyCertEpsNeg = false ∧ 0 < (hierarchyCertEpsNum : ℚ) / hierarchyCertEpsDen
@@ -583,6 +601,51 @@ theorem orth_basis_C_H {d N0 k c : ℕ} (hd : 1 ≤ d)
     (fun A B => (Matrix.trace (A.conjTranspose * B)).re) (synthL d hd) 2 (fun x y => synthL_iso d hd x y) X V W hV hspan hWV
 
 end orth
+
+/-! ## 10. the soundness chain, link by link -/
+
+section chain
+open Matrix
+open scoped ComplexOrder
+
+/-- **(i) the relation is non-trivial**: grouping the tuples by their sorted multi-index, the relation reads
+`Σ_α groupedCoef(α)·v_α = 0` … -/
+theorem relation_grouped {R : Type} [CommRing R] {n N : ℕ} (c : Fin N → R) (g : List ℕ → R) :
+    ∑ t : Fin n → Fin N, (∏ m, c (t m)) * g (sortedIndex t)
+      = ∑ α ∈ (univ : Finset (Fin n → Fin N)).image sortedIndex, groupedCoef (n := n) c α * g α :=
+  MatrixSpace.relation_grouped c g
+
+/-- … and the coefficient of `v_{(i,…,i)}` is `c_i^n` — non-zero in a field as soon as `c_i ≠ 0`; `(i,…,i)` is one of the multi-indices. -/
+theorem groupedCoef_const {R : Type} [CommRing R] {n N : ℕ} (c : Fin N → R) (i : Fin N) :
+    groupedCoef (n := n) c (List.replicate n i.val) = c i ^ n
+      ∧ List.replicate n i.val ∈ (univ : Finset (Fin n → Fin N)).image sortedIndex :=
+  ⟨MatrixSpace.groupedCoef_const c i, replicate_mem_image i⟩
+
+/-- the Gram matrix `G[α,β] = Σ_x v_α[x]·conj v_β[x]` of a family is positive semidefinite -/
+theorem gramOf_posSemidef {ι κ : Type} [Fintype ι] [Fintype κ] [DecidableEq ι] (v : ι → κ → ℂ) : (gramOf v).PosSemidef :=
+  MatrixSpace.gramOf_posSemidef v
+
+/-- **(ii) singular ⇒ the exact decision quantity is 0**: if the family satisfies a linear relation with a non-zero coefficient
+vector `d`, the smallest eigenvalue of its Gram matrix — `eigvalsh` contract: `lam` is an attained lower bound of the Rayleigh
+quotient — is 0. -/
+theorem gram_lambda_min_zero {ι κ : Type} [Fintype ι] [Fintype κ] [DecidableEq ι] (v : ι → κ → ℂ) (d : ι → ℂ)
+    (hrel : ∀ x, ∑ α, d α * v α x = 0) (hd : d ≠ 0) (lam : ℝ)
+    (hmin : ∀ y : ι → ℂ, lam * (star y ⬝ᵥ y).re ≤ (star y ⬝ᵥ (gramOf v *ᵥ y)).re)
+    (hatt : ∃ y : ι → ℂ, star y ⬝ᵥ (gramOf v *ᵥ y) = (lam : ℂ)) : lam = 0 :=
+  MatrixSpace.gram_lambda_min_zero v d hrel hd lam hmin hatt
+
+/-- **the chain closed**: a family with a non-trivial linear relation is never certified, given the `eigvalsh` contract and the
+rounding bound `|computed − λ_min| ≤ δ ≤ zero_eps` (the one hypothesis that is about floating point; the regression corpus holds the
+inputs on which the former LU decision violated it). -/
+theorem certificate_not_issued {ι κ : Type} [Fintype ι] [Fintype κ] [DecidableEq ι] (v : ι → κ → ℂ) (d : ι → ℂ)
+    (hrel : ∀ x, ∑ α, d α * v α x = 0) (hd : d ≠ 0) (lam : ℝ)
+    (hmin : ∀ y : ι → ℂ, lam * (star y ⬝ᵥ y).re ≤ (star y ⬝ᵥ (gramOf v *ᵥ y)).re)
+    (hatt : ∃ y : ι → ℂ, star y ⬝ᵥ (gramOf v *ᵥ y) = (lam : ℂ))
+    (computed δ zero_eps : ℝ) (hround : |computed - lam| ≤ δ) (hslack : δ ≤ zero_eps) :
+    hierarchyCert computed zero_eps = false ∧ abcCert computed zero_eps = false :=
+  hierarchyCert_sound_current computed lam δ zero_eps (MatrixSpace.gram_lambda_min_zero v d hrel hd lam hmin hatt) hround hslack
+
+end chain
 
 /-! ## non-vacuity -/
 
